@@ -511,6 +511,17 @@ theorem canonicalize_normal_form (l : Layout) : ∀ t ∈ l.canonicalize.ts, nfT
   obtain ⟨t0, _, rfl⟩ := ht
   exact nfT_canonT t0
 
+/-- **`canonicalize()` keeps the rank and never deepens a dimension**: same number of dimensions, same offset, per
+dimension at most as many tiles as before, and a dimension that had a tile keeps one ("always keep the innermost
+one") — for every layout, dynamic ones included. -/
+theorem canonicalize_rank_depth (l : Layout) :
+    l.canonicalize.ts.length = l.ts.length ∧ l.canonicalize.offset = l.offset ∧
+      ∀ d (h : d < l.ts.length), ∃ t', l.canonicalize.ts[d]? = some t' ∧ t'.length ≤ (l.ts[d]).length ∧
+        (l.ts[d] ≠ [] → t' ≠ []) := by
+  refine ⟨by simp [Layout.canonicalize], rfl, ?_⟩
+  intro d h
+  refine ⟨canonT l.ts[d], by simp [Layout.canonicalize, h], canonT_length_le _, canonT_ne_nil _⟩
+
 /-- a single pass is needed: the input of the non-vacuity example below is not a fixed point -/
 theorem canonicalize_not_identity :
     ¬ ∀ l : Layout, l.canonicalize = l := by
